@@ -104,7 +104,7 @@ public:
     std::map<std::string, uint64_t> nativeUse;
     std::map<std::string, Failure> knownHits;
     uint64_t pathsDone = 0, pathsKilledAssume = 0, pathsError = 0, pathsBudget = 0, forks = 0, totalInsns = 0;
-    uint64_t qCached = 0;
+    uint64_t qCached = 0; uint64_t poisonUsed = 0;
     uint64_t qHeavy = 0; double slowestQ = 0;
     uint64_t qTotal = 0, qSat = 0, qUnsat = 0, qUnknown = 0; double solverS = 0;
     uint64_t assertsChecked = 0, assertsSymbolic = 0, pathsWithSymAssert = 0;
